@@ -554,7 +554,7 @@ pub fn run(ctx: &Ctx) -> EvidenceMeta {
     // ---- generated decode cases ---------------------------------------------------------------
     ctx.proptest(
         "decode-generated",
-        ctx.n(30_000, 1_500_000),
+        ctx.n(150_000, 5_000_000),
         || {
             (
                 kind_strategy(),
@@ -582,7 +582,7 @@ pub fn run(ctx: &Ctx) -> EvidenceMeta {
     // ---- encode side ------------------------------------------------------------------------------
     ctx.proptest(
         "encode-generated",
-        ctx.n(40_000, 2_000_000),
+        ctx.n(150_000, 5_000_000),
         || {
             (kind_strategy(), gen::tid_strategy()).prop_flat_map(|(kind, tid)| {
                 gen::fields_strategy(kind).prop_map(move |fields| Case::Encode { kind, fields, tid })
